@@ -109,6 +109,32 @@ fn gen_c01(ctx: &mut Ctx) {
             rt_case(ctx, a, t, &d, k % 2 == 1, &format!("len{:03}", len / 32 * 32));
         }
     }
+    // frames whose bytes add up to as much as a frame can (sum of all encoded bytes just below / at / above 65535)
+    for (a, t, len, fill, last) in [(0xFFFFu16, 0xFFu8, 255usize, 0xFFu8, 0xFFu8), (0xFFFF, 0xFF, 254, 0xFF, 0xFF), (0xFFFF, 0xFF, 255, 0xFF, 0x00),
+                                    (0xFFFE, 0xFF, 255, 0xFF, 0xFE), (0x00FF, 0x00, 255, 0xFF, 0xFF), (0xFF00, 0xFF, 255, 0xFE, 0xFF), (0, 0, 255, 0xFF, 0xFF)] {
+        let mut d = vec![fill; len];
+        if let Some(x) = d.last_mut() {
+            *x = last;
+        }
+        rt_case(ctx, a, t, &d, false, "heavy-frame");
+        rt_case(ctx, a, t, &d, true, "heavy-frame");
+    }
+    // a rejected line of each kind must not influence the frames handled after it (decode, then round trips again)
+    for (k, bad) in [&b":01007F02FF7E"[..], &b":00007F02007F"[..], &b":01007F02FF7"[..], &b"garbage"[..], &b":01007F02FF7E\r\n"[..], &b":0200000000FE"[..]].iter().enumerate() {
+        let line = format!("DEC {}", hex_of_bytes(bad));
+        let res = ctx.case(line.clone(), true, "rejected-line-then-more");
+        ctx.monitor(res.starts_with("ER "), "C01-roundtrip-shape", &line, &res);
+        for j in 0..3usize {
+            let len = [1usize, 16, 200][j];
+            rt_case(ctx, 0x0102 + k as u16, (k * 16 + j) as u8, &rng.bytes(len), j % 2 == 0, "rejected-line-then-more");
+        }
+    }
+    // no other public way of making a Data lets more than 255 bytes through (From<&'static [u8; N]>)
+    for n in [0usize, 1, 4, 5, 16, 255, 256] {
+        let line = format!("NEWS {}", n);
+        let res = ctx.case(line.clone(), true, "data-from-static-array");
+        ctx.monitor(res == "OK", "C01-no-truncation", &line, &res);
+    }
     // every message type, and addresses across the range, at length 0 and 1
     for t in 0..=255u16 {
         rt_case(ctx, 0x1234, t as u8, &[], false, "all-types");
@@ -203,6 +229,7 @@ fn gen_c02(ctx: &mut Ctx) {
         // maximum-length frames whose last bytes are zero: a checksum (or length) computation that stops short of
         // the end of a long frame is only exposed by damage in the tail, and only if the tail does not itself
         // change the sum it should have contributed to
+        (0xFFFF, 0xFF, vec![0xFF; 255]),
         (0, 0, vec![0; 255]),
         (0x0102, 3, { let mut v: Vec<u8> = (0..252).map(|i| (i * 3 + 1) as u8).collect(); let n = v.len(); v[n - 4..].fill(0); v }),
     ];
@@ -420,6 +447,20 @@ fn gen_c03(ctx: &mut Ctx) {
     // more than 255 data bytes with a length byte equal to (or one off) the count modulo 256
     for s in oversize_strings(&mut rng) {
         dec_case(ctx, &s, "oversize-wire-data");
+    }
+    // the heaviest frames there are (all encoded bytes 0xFF or nearly), valid and with one digit changed
+    for (a, t, len, last) in [(0xFFFFu16, 0xFFu8, 255usize, 0xFFu8), (0xFFFF, 0xFF, 254, 0xFF), (0xFFFE, 0xFF, 255, 0xFE), (0x00FF, 0, 255, 0xFF)] {
+        let mut d = vec![0xFFu8; len];
+        *d.last_mut().unwrap() = last;
+        for nl in [false, true] {
+            let s = ref_encode(a, t, &d, nl);
+            dec_case(ctx, &s, "heavy-frame");
+            for pos in [1usize, 2, 3, 8, s.len() / 2, s.len() - 5, s.len() - 3] {
+                let mut c = s.clone();
+                c[pos] = if c[pos] == b'0' { b'1' } else { b'0' };
+                dec_case(ctx, &c, "heavy-frame-damaged");
+            }
+        }
     }
     // 2. x ++ valid ++ y with |x| + |y| <= 2
     let templates = valid_templates(&mut rng, if ctx.tier_thorough { 12 } else { 3 });
@@ -715,6 +756,52 @@ fn gen_c04(ctx: &mut Ctx) {
             }
         }
     }
+    // frames that only just miss a table row: every first byte followed by a STRUCTURED tail (all 00, all FF, the first
+    // byte repeated, counting up, the address bytes in either order), for the types the protocol uses
+    for t in 0..=7u8 {
+        for b0 in 0..=255u16 {
+            let b0 = b0 as u8;
+            for (ai, a) in [0x0102u16, 0x00FF, 0xA1A2].into_iter().enumerate() {
+                if !ctx.tier_thorough && ai != (b0 as usize + t as usize) % 3 {
+                    continue;
+                }
+                let tails: Vec<Vec<u8>> = vec![
+                    vec![0x00], vec![0xFF], vec![b0], vec![0xFF, 0xFF], vec![0x00, 0x00, 0x00], vec![b0, b0, b0],
+                    vec![1, 2, 3], vec![(a >> 8) as u8], vec![(a & 0xFF) as u8], vec![0xFF; 15],
+                ];
+                for tail in tails {
+                    let mut d = vec![b0];
+                    d.extend(tail);
+                    f2m_case(ctx, a, t, &d, b0 % 2 == 0, "structured-tail");
+                }
+            }
+        }
+    }
+    // data equal to the frame's own address field (big- and little-endian), across the address range
+    let step = if ctx.tier_thorough { 1u32 } else { 37 };
+    for t in 0..=6u8 {
+        let mut a: u32 = 0;
+        while a < 65536 {
+            let be = vec![(a >> 8) as u8, (a & 0xFF) as u8];
+            f2m_case(ctx, a as u16, t, &be, a % 2 == 0, "data-is-address");
+            if a % 3 == 0 {
+                f2m_case(ctx, a as u16, t, &[be[1], be[0]], a % 2 == 1, "data-is-address");
+            }
+            a += if a < 0x1100 { step.min(7) } else { step * 5 };
+        }
+    }
+    // every two-byte data block for the types that carry codes (pairs of related codes, e.g. an ack code followed by
+    // its request code, are only found by sweeping both bytes)
+    for t in [1u8, 2, 3, 4, 5, 6] {
+        for b0 in 0..=255u16 {
+            for b1 in 0..=255u16 {
+                if !ctx.tier_thorough && !(t == 5 || t == 3 || (b0 + b1) % 4 == t as u16 % 4) {
+                    continue;
+                }
+                f2m_case(ctx, 3, t, &[b0 as u8, b1 as u8], false, "two-byte-sweep");
+            }
+        }
+    }
     // every recognised row x addresses across the whole range
     let rows: Vec<(u8, Vec<u8>)> = {
         let mut r: Vec<(u8, Vec<u8>)> = vec![(0, vec![]), (0, vec![7]), (0, vec![1, 2, 3]), (1, vec![]), (2, vec![0xFF]), (2, vec![0]), (2, vec![0x55]), (6, vec![0])];
@@ -890,14 +977,17 @@ fn gen_c07(ctx: &mut Ctx) {
                 continue;
             }
             let seed = rng.below(1000);
-            let line = format!("PB {} {} {} {}", w, h, len, seed);
-            let res = ctx.case(line.clone(), true, "from_bytes-length");
-            let ok = if len == total {
-                res == format!("OK {}", hex_of_bytes(&pb_bytes(len as usize, seed as usize)))
-            } else {
-                res == "ER LEN"
-            };
-            ctx.monitor(ok, "C07-from-bytes-iff-length", &line, &res);
+            // over a borrowed slice, and over an owned buffer at and around the accepted length
+            for kind in if (len - total).abs() <= 1 || len == 0 { vec!["PB", "PBO"] } else { vec!["PB"] } {
+                let line = format!("{} {} {} {} {}", kind, w, h, len, seed);
+                let res = ctx.case(line.clone(), true, "from_bytes-length");
+                let ok = if len == total {
+                    res == format!("OK {}", hex_of_bytes(&pb_bytes(len as usize, seed as usize)))
+                } else {
+                    res == "ER LEN"
+                };
+                ctx.monitor(ok, "C07-from-bytes-iff-length", &line, &res);
+            }
         }
         // pixel location: set exactly one pixel on a blank page; exactly the documented bit changes
         if w64 * h64 > 0 && w64 * h64 <= 4096 {
@@ -918,8 +1008,9 @@ fn gen_c07(ctx: &mut Ctx) {
             }
             for chunk in coords.chunks(32) {
                 let mut line = format!("PG {} {} N.9", w, h);
+                // on, on again (nothing may change), off, off again (nothing may change)
                 for (x, y) in chunk {
-                    line.push_str(&format!(" S.{}.{}.1 S.{}.{}.0", x, y, x, y));
+                    line.push_str(&format!(" S.{}.{}.1 S.{}.{}.1 S.{}.{}.0 S.{}.{}.0", x, y, x, y, x, y, x, y));
                 }
                 let res = ctx.case(line.clone(), true, "pixel-location");
                 let toks: Vec<&str> = res.split(' ').collect();
@@ -930,9 +1021,10 @@ fn gen_c07(ctx: &mut Ctx) {
                     let bit = (*y % 8) as u32;
                     let want_on = format!("{}:{}", idx, 1u32 << bit);
                     let want_off = format!("{}:0", idx);
-                    if toks.get(2 * k) != Some(&want_on.as_str()) || toks.get(2 * k + 1) != Some(&want_off.as_str()) {
+                    let want = [want_on.as_str(), "=", want_off.as_str(), "="];
+                    if (0..4).any(|j| toks.get(4 * k + j) != Some(&want[j])) {
                         ok = false;
-                        detail = format!("pixel ({},{}) expected {} then {}, got {:?} {:?}", x, y, want_on, want_off, toks.get(2 * k), toks.get(2 * k + 1));
+                        detail = format!("pixel ({},{}) expected {:?}, got {:?}", x, y, want, &toks[(4 * k).min(toks.len())..(4 * k + 4).min(toks.len())]);
                         break;
                     }
                 }
@@ -944,23 +1036,54 @@ fn gen_c07(ctx: &mut Ctx) {
             }
         }
     }
+    gen_c07_extreme(ctx);
+}
+
+/// Dimensions at the far end of u32 whose pages are tiny (width 0) or whose padded size is beyond any buffer.
+fn gen_c07_extreme(ctx: &mut Ctx) {
+    let m = u32::MAX;
+    for (w, h) in [(0u32, m), (0, m - 1), (0, m - 6), (0, m - 7), (0, m - 8), (m, 0), (0, 1 << 31), (0, 70000), (1, 256), (1, 257), (3, 1000)] {
+        let (w64, h64) = (w as u64, h as u64);
+        let line = format!("PN 5 {} {}", w, h);
+        let res = ctx.case(line.clone(), true, "extreme-dimensions");
+        let mut want = vec![5u8, 0x10, 0, 0];
+        want.resize(data_bytes(w64, h64) as usize, 0);
+        want.resize(total_bytes(w64, h64) as usize, 0xFF);
+        ctx.monitor(res == hex_of_bytes(&want), "C07-new-layout", &line, &res[..res.len().min(60)]);
+    }
+    // from_bytes where the expected size exceeds 2^32: a small buffer is simply the wrong length
+    for (w, h) in [(65536u32, 524288u32), (m, m), (m, 8), (1 << 29, 8), ((1 << 29) + 1, 8), (m, 1), (2, m), (1 << 16, 1 << 19)] {
+        for len in [0usize, 4, 16, 32] {
+            for kind in ["PB", "PBO"] {
+                let line = format!("{} {} {} {} 1", kind, w, h, len);
+                let res = ctx.case(line.clone(), true, "extreme-dimensions");
+                let total = total_bytes(w as u64, h as u64);
+                let ok = if total == len as u64 { res.starts_with("OK ") } else { res == "ER LEN" };
+                ctx.monitor(ok, "C07-from-bytes-iff-length", &line, &res);
+            }
+        }
+    }
 }
 
 // ---------------------------------------------------------------------------------------------
 
 fn gen_c06(ctx: &mut Ctx) {
     let mut rng = Rng::new(ctx.seed, 6);
-    let szs = sizes(ctx, &mut rng, 40);
+    let mut szs = sizes(ctx, &mut rng, 40);
+    // tall and wide pages: rows and columns beyond 255 / 256 / 65535 must not alias onto lower ones
+    szs.extend_from_slice(&[(2, 300), (1, 513), (3, 257), (300, 3), (1, 65537), (65537, 1)]);
     for &(w, h) in &szs {
         let (w64, h64) = (w as u64, h as u64);
         let total = total_bytes(w64, h64) as usize;
         let data = data_bytes(w64, h64) as usize;
-        for variant in 0..3 {
-            // 0: fresh page, 1: borrowed bytes with arbitrary header/padding/content, 2: borrowed all-ones
+        for variant in 0..4 {
+            // 0: fresh page, 1: borrowed bytes with arbitrary header/padding/content, 2: borrowed all-ones,
+            // 3: an OWNED buffer with arbitrary header/padding/content
             let src = match variant {
                 0 => format!("N.{}", rng.byte()),
                 1 => format!("B.{}", hex_of_bytes(&rng.bytes(total))),
-                _ => format!("B.{}", hex_of_bytes(&vec![0xFFu8; total])),
+                2 => format!("B.{}", hex_of_bytes(&vec![0xFFu8; total])),
+                _ => format!("O.{}", hex_of_bytes(&rng.bytes(total))),
             };
             let init: Vec<u8> = match variant {
                 0 => {
@@ -1053,7 +1176,7 @@ fn gen_c06(ctx: &mut Ctx) {
                 expect.push(Some((bitmap[(x * h64 + y) as usize] as u8).to_string()));
             }
             let line = format!("PG {} {} {} {}", w, h, src, ops.join(" "));
-            let res = ctx.case(line.clone(), true, ["fresh", "borrowed-random", "borrowed-ones"][variant]);
+            let res = ctx.case(line.clone(), true, ["fresh", "borrowed-random", "borrowed-ones", "owned-random"][variant]);
             let toks: Vec<&str> = res.split(' ').collect();
             let mut ok = true;
             let mut detail = String::new();
@@ -1244,6 +1367,58 @@ fn gen_c19(ctx: &mut Ctx) {
             let res = ctx.case(line.clone(), true, "vsign-reconfigured");
             let want_pages = format!("# {}.{}.{}", w, h, hex_of_bytes(&page));
             ctx.monitor(res.ends_with(&want_pages) && res.contains(&format!("RS.7.PRX/PRX.{}.1.", j)), "C19-vsign-derives", &line, &res[..res.len().min(120)]);
+        }
+    }
+    // lengths that are 16 only modulo a power of two, and other long inputs, starting with a supported key or not
+    for len in [272usize, 528, 784, 4112, 65552, 65536 + 272, 17, 32, 48, 255, 256, 1000] {
+        for k in 0..4usize {
+            let mut b = rng.bytes(len);
+            if k < 3 {
+                let key = KEYS[(len + k * 4) % 11];
+                b[0] = key.0;
+                b[1] = key.1;
+            }
+            let line = format!("ST {}", hex_of_bytes(&b));
+            let res = ctx.case(line.clone(), true, "long-inputs");
+            let short = if line.len() > 200 { format!("{}... ({} bytes)", &line[..200], len) } else { line.clone() };
+            ctx.monitor(res == "ER LEN", "C19-length", &short, &res);
+        }
+    }
+    // what a sign derives from the block must not depend on earlier, failed or abandoned configuration attempts:
+    // (a) block delivered, transfer fails verification (wrong count / duplicated block), retried with the same type and
+    // no reset; (b) block delivered, transfer cut off before the count, then reset or goodbye, then configured normally
+    for i in 0..11usize {
+        let (w, h) = SIGN_SIZES[i];
+        let total = total_bytes(w as u64, h as u64) as usize;
+        let mut page = vec![0x3Cu8; total];
+        page[0] = 9;
+        let block = &block_hex[i];
+        let other = &block_hex[(i + 5) % 11];
+        let preludes: Vec<(Vec<String>, &str)> = vec![
+            (vec!["RO.7.RCF".into(), format!("SD.0.{}", block), "DC.2".into(), "QS.7".into()], "failed-count-then-retry"),
+            (vec!["RO.7.RCF".into(), format!("SD.0.{}", block), format!("SD.0.{}", block), "DC.1".into(), "QS.7".into()], "duplicated-block-then-retry"),
+            (vec!["RO.7.RCF".into(), format!("SD.0.{}", other), "DC.3".into(), "QS.7".into()], "failed-other-type-then-retry"),
+            (vec!["RO.7.RCF".into(), format!("SD.0.{}", block), "RO.7.SRS".into(), "RO.7.FRS".into()], "cut-off-then-reset"),
+            (vec!["RO.7.RCF".into(), format!("SD.0.{}", block), "GB.7".into()], "cut-off-then-goodbye"),
+            (vec!["RO.7.RCF".into(), format!("SD.0.{}", other), "GB.7".into()], "cut-off-other-type-then-goodbye"),
+        ];
+        for (pi, (prelude, class)) in preludes.into_iter().enumerate() {
+            if !ctx.tier_thorough && (i + pi) % 2 == (ctx.seed % 2) as usize && pi >= 2 {
+                continue;
+            }
+            let mut msgs = prelude;
+            msgs.extend(["RO.7.RCF".to_string(), format!("SD.0.{}", block), "DC.1".to_string(), "QS.7".to_string(), "RO.7.RPX".to_string()]);
+            let mut n = 0;
+            for (k, c) in page.chunks(16).enumerate() {
+                msgs.push(format!("SD.{}.{}", k * 16, hex_of_bytes(c)));
+                n += 1;
+            }
+            msgs.push(format!("DC.{}", n));
+            msgs.push("QS.7".to_string());
+            let line = format!("VSL 7 A {}", msgs.join(" "));
+            let res = ctx.case(line.clone(), true, class);
+            let want_pages = format!("# {}.{}.{}", w, h, hex_of_bytes(&page));
+            ctx.monitor(res.ends_with(&want_pages) && res.contains(&format!("RS.7.PRX/PRX.{}.1.", i)), "C19-vsign-derives", &line[..line.len().min(300)], &res[..res.len().min(120)]);
         }
     }
     // all lengths 0..=40 over all byte values; valid prefixes included
